@@ -192,6 +192,40 @@ def wl_long(ctx, rng, case):
     case.nontrivial = stats["capacity_changes"] > 0
 
 
+def wl_after_refusals(ctx, rng, case):
+    """life goes on after refused calls: a crowded auto-expanding table whose expansions are refused (non-growing rate, or too few swaps), with
+    keys added more than once; then the rate is raised, most keys are removed again completely, the table is expanded explicitly and refilled.
+    Whatever a refused call left behind in the bookkeeping must not cost a key later."""
+    cfg = ck.gen_cfg(rng, allow_rate=False)
+    cfg.capacity = rng.choice([1, 2, 2, 3, 4])
+    cfg.bucket_size = rng.choice([1, 2, 2])
+    cfg.max_swaps = rng.choice([1, 2, 3, 10])
+    cfg.auto_expand = True
+    cfg.expansion_rate = rng.choice([1, 1, 2])
+    keys = ck.gen_keys(rng, cfg, rng.randint(4, 9))
+    if len(keys) < 3:
+        return
+    ops = []
+    for k in keys:
+        ops.extend([("add", k)] * rng.choice([1, 2, 2, 3]))
+    ops.append(("rate", rng.choice([2, 3])))
+    gone = rng.sample(keys, rng.randint(1, len(keys) - 1))
+    for k in gone:
+        ops.extend([("remove", k)] * 3)
+    ops.append(("expand",))
+    for k in rng.sample(keys, min(len(keys), 4)):
+        ops.append(("add", k))
+    if rng.random() < 0.5:
+        ops.append(("expand",))
+    case.desc = dict(cfg.desc(), n_keys=len(keys), kind="refused expansions, removals, explicit expansion")
+    for op in ops:
+        case.op(*op)
+    ex, stats = explore_case(ctx, rng, case, cfg, keys, ops, 40 if ctx.tier == "quick" else 2000, extra=6 if ctx.tier == "quick" else 60)
+    if stats["failed_adds"] or stats["failed_expansions"]:
+        ctx.count("histories_continuing_after_a_refused_call")
+    case.nontrivial = (stats["failed_adds"] + stats["failed_expansions"]) > 0
+
+
 def wl_crowd(ctx, rng, case):
     """several filters ALIVE AT ONCE whose histories are interleaved: same capacity and bucket size, fingerprints of one byte (so the
     same fingerprint values occur in all of them) but different hash strategies, plus one bulk filter that takes tens of thousands of
@@ -305,6 +339,7 @@ PROP = Prop(
         Workload("explore", wl_explore, quick=200, thorough=5000),
         Workload("long", wl_long, quick=60, thorough=3000),
         Workload("crowd", wl_crowd, quick=16, thorough=320),
+        Workload("after_refusals", wl_after_refusals, quick=100, thorough=3000),
     ],
     assumptions=["fingerprint model uses an independent FNV-1a (ASCII/bytes keys); keys whose raw fingerprint is 0 (the empty-slot marker) appear only in the zero_fingerprint workload, whose histories contain no removals (how 0 is remapped is the library's choice)",
                  "after a failed add the presence of the NEW key is taken from observation (the statement only protects the keys present before)",
